@@ -1,5 +1,6 @@
 import Driver.Ops.Write
 import Driver.Ops.Read
+import ZipVerif.Model.Interrupted
 /- Ops `fault.*` (C11): the same scenarios with the k-th I/O call failing. -/
 
 namespace Driver
@@ -19,8 +20,17 @@ def parseKind : String → Option IoKind
   | "interrupted" => some .interrupted
   | _ => none
 
+/-- `fault.read`: `ZipArchive::new`, then every entry by index, read to its end by the harness's own `read` loop.
+On a device failing with `Interrupted` the model with std's convention answers: `openArchiveI` (`read_exact` retries, the
+`seek`s do not) and `byIndexReadB` (`find_content` likewise; the consumer is a hand-written `read` loop that does NOT
+retry, so an `Interrupted` failure of its read is the entry's error).  On every other kind these ARE `openArchive` /
+`byIndexRead` (`Props/C11.open_hard_kinds`); the hard-failure functions are kept there for speed. -/
 def faultRead (bytes : Bytes) (fa : Option Nat) (kind : IoKind := .injected) : String :=
-  match openArchive fa (Dev.ofBytesK bytes kind) with
+  let intr := kind == .interrupted
+  let openM : M Archive := if intr then openArchiveI else openArchive
+  let readM (a : Archive) (i : Nat) : M (PwResult (Nat × Out Bytes)) :=
+    if intr then byIndexReadB storedExt a i none else byIndexRead storedExt a i none
+  match openM fa (Dev.ofBytesK bytes kind) with
   | (.err e, d) => s!"open={(Out.className e).replace " " ":"} ncalls={d.calls}"
   | (.panic _, _) => "panic"
   | (.ok a, d) =>
@@ -28,7 +38,7 @@ def faultRead (bytes : Bytes) (fa : Option Nat) (kind : IoKind := .injected) : S
       match n with
       | 0 => acc ++ s!" ncalls={d.calls}"
       | n + 1 =>
-        match (byIndexRead storedExt a i none) fa d with
+        match readM a i fa d with
         | (.err e, d') => go (i + 1) n d' (acc ++ s!" {i}={(Out.className e).replace " " ":"}")
         | (.panic _, _) => "panic"
         | (.ok .invalidPassword, d') => go (i + 1) n d' (acc ++ s!" {i}=err:passwordrequired")
@@ -98,8 +108,10 @@ def opFault (op : String) (a : Args) : Option String := do
   let kind : IoKind ← (match a.get? "kind" with
     | none => some .injected
     | some n => parseKind n)
-  -- `Interrupted` inside std's retry loops is described only by the streaming ops (`M.retried`); see the harness
-  if (op == "fault.read" || op == "fault.write") && kind == .interrupted && fa.isSome then some "oracle-only" else
+  -- `Interrupted` inside std's retry loops: the streaming ops (`M.retried`), the seekable reader and the writer (the `MI`
+  -- instances of the generic parsers / the generic writer) describe it.  Not described: COMPRESSING write scenarios (the
+  -- encoders' own output loops do not retry, the model coalesces their output into one `write_all`) - see the harness
+  if op == "fault.write" && kind == .interrupted && fa.isSome && ((a.get? "comp").getD "-") != "-" && ((a.get? "comp").getD "-") != "" then some "oracle-only" else
   match op with
   | "fault.enc" | "fault.writec" | "fault.writeo" | "fault.rawcopy" | "fault.streamo" | "fault.visito" => some "oracle-only"   -- cipher / codec layers are external: judged by the oracle alone
   | "fault.stream" =>
@@ -115,6 +127,10 @@ def opFault (op : String) (a : Args) : Option String := do
     let calls := ((a.get? "calls").getD "").splitOn ";"
     let ext := mkWExt (parseComp ((a.get? "comp").getD "-")) (parseZc ((a.get? "zc").getD "-"))
     let tail := fun (d : Dev) => s!" ncalls={d.calls}"
+    -- a device failing with `Interrupted`: the generic writer at `MI` (`write_all` retries; `seek` / `flush` are bare) and
+    -- `newAppendI`; every other kind: the writer model itself (= the generic writer at `M`, `GW.step_M`)
+    let intr := kind == .interrupted
+    let W : WSteps := if intr then intrSteps else modelSteps
     -- sources of raw copies: opened fault-free (the fault is on the SINK; the source reader delivers each entry whole)
     let srcs : List (Archive × Dev) := (List.range 8).filterMap fun i =>
       match a.hex? s!"src{i}" with
@@ -126,11 +142,11 @@ def opFault (op : String) (a : Args) : Option String := do
     match calls with
     | first :: rest =>
       match first.splitOn "," with
-      | ["new"] => some (runCallsF ext srcs fa tail rest WState.init (Dev.ofBytesK [] kind) ["ok"])
+      | ["new"] => some (runCallsF ext srcs fa tail W rest WState.init (Dev.ofBytesK [] kind) ["ok"])
       | ["ap", base] => do
         let b ← parseHex base
-        match newAppend fa (Dev.ofBytesK b kind) with
-        | (.ok s, d) => some (runCallsF ext srcs fa tail rest s d ["ok"])
+        match (if intr then newAppendI else newAppend) fa (Dev.ofBytesK b kind) with
+        | (.ok s, d) => some (runCallsF ext srcs fa tail W rest s d ["ok"])
         | (.err e, d) => some ((Out.className e).replace " " ":" ++ " " ++ showFinal d ++ tail d)
         | (.panic _, _) => some "panic"
       | _ => some "bad-op"
